@@ -109,7 +109,7 @@ def work(tasks, idx):
             continue
         req, r = b
         e = _reg.expectation(req, r.roots, require_uv=bool(flags & core.UV))
-        if e.get("roots") and variant % 3 != 0 and fmt != "android-key":
+        if e.get("roots") and variant % 3 != 0:
             # the RP's anchors as PEM files are found in the wild (RFC 7468 allows text around the armour): a leading blank line,
             # a comment or an `openssl x509 -text` preamble before it, CRLF line ends, text after it
             def respell(pem, k):
